@@ -92,6 +92,9 @@ func (x *Exec) call(st *State, e *ast.CallExpr, k func(*State, []Term)) {
 						return
 					}
 					f := stt.Field(fi)
+					if isExternalStruct(named) {
+						break // receiver reached through an external struct: its contract is stated over the outer value
+					}
 					if isPtr {
 						cur = x.readField(st, fieldKeyOf(named, f), x.d.sortOf(f.Type()), cur.S)
 					} else {
@@ -105,7 +108,8 @@ func (x *Exec) call(st *State, e *ast.CallExpr, k func(*State, []Term)) {
 		}
 		evalRecv(st, func(st *State, recv *Term) {
 			x.args(st, e, fn.Type().(*types.Signature), func(st *State, args []Term) {
-				x.staticCall(st, e, fn, recv, args, k)
+				inst, _ := x.info.TypeOf(e.Fun).(*types.Signature)
+				x.staticCallInst(st, e, fn, inst, recv, args, k)
 			})
 		})
 		return
@@ -379,8 +383,16 @@ func (x *Exec) specOfFunc(fn *types.Func) (*UnitSpec, *UnitInfo) {
 }
 
 func (x *Exec) staticCall(st *State, e *ast.CallExpr, fn *types.Func, recv *Term, args []Term, k func(*State, []Term)) {
+	x.staticCallInst(st, e, fn, nil, recv, args, k)
+}
+
+// staticCallInst: inst is the instantiated signature at the call site (result sorts of generic callees).
+func (x *Exec) staticCallInst(st *State, e *ast.CallExpr, fn *types.Func, inst *types.Signature, recv *Term, args []Term, k func(*State, []Term)) {
 	spec, u := x.specOfFunc(fn)
 	sig := fn.Type().(*types.Signature)
+	if inst != nil && inst.Params().Len() == sig.Params().Len() && inst.Results().Len() == sig.Results().Len() {
+		sig = inst
+	}
 	if recv != nil && recv.Sort == "Ref" && u != nil {
 		x.oblige(st, "requires", "call["+u.Key+"].requires[recv-non-nil]", sNot(sEq(recv.S, "nilRef")), e)
 		st.assume(sNot(sEq(recv.S, "nilRef")))
@@ -514,7 +526,15 @@ func (x *Exec) contractCall(st *State, pos ast.Node, spec *UnitSpec, sig *types.
 		}
 		x.hooks.runM(x, st, stTerm.S, coT.S)
 	}
-	if len(refines) == 0 || len(spec.clauses("modifies")) > 0 {
+	pureCallee := len(spec.clauses("modifies")) == 0 && len(refines) == 0
+	if pureCallee {
+		for _, c := range spec.clauses("ensures") {
+			if strings.Contains(c.Src, "fresh(") {
+				pureCallee = false
+			}
+		}
+	}
+	if !pureCallee && (len(refines) == 0 || len(spec.clauses("modifies")) > 0) {
 		x.applyModifies(st, spec, pre, binds)
 	}
 	// results
@@ -882,8 +902,32 @@ func (x *Exec) funValueCall(st *State, e *ast.CallExpr, f Term, ft types.Type, s
 			}
 		}
 	}
+	if id, ok := ast.Unparen(e.Fun).(*ast.Ident); ok && target == nil {
+		if v, ok := x.info.Uses[id].(*types.Var); ok {
+			switch init := x.prog.InitBind[v].(type) {
+			case *ast.FuncLit:
+				target = x.prog.UnitOfLit[init]
+			case *ast.SelectorExpr:
+				// a method value bound once: recv.method
+				if sel := x.info.Selections[init]; sel != nil && sel.Kind() == types.MethodVal {
+					if rid, ok := init.X.(*ast.Ident); ok {
+						if fn, ok := sel.Obj().(*types.Func); ok {
+							inst, _ := x.info.TypeOf(init).(*types.Signature)
+							x.ident(st, rid, func(st *State, recv Term) {
+								x.staticCallInst(st, e, fn.Origin(), inst, &recv, args, k)
+							})
+							return
+						}
+					}
+				}
+			}
+		}
+	}
 	if target == nil {
 		target = st.closures[f.S]
+	}
+	if target != nil {
+		st.assume(sNot(sEq(f.S, "nilF")))
 	}
 	x.oblige(st, "no-panic", "no-panic[nil-func]", sNot(sEq(f.S, "nilF")), e)
 	st.assume(sNot(sEq(f.S, "nilF")))
